@@ -337,7 +337,7 @@ func runC06(ctx *core.Ctx, pool *par.Pool) {
 	if !quick {
 		depth, maxBits = 7, 12
 		cfgs = append(cfgs, QCfgSpec{File: "E", Buffer: 6})
-		ctx.SetBudget(28 * time.Minute)
+		ctx.SetBudget(15 * time.Minute)
 	}
 	share := ctx.Budget() * 8 / 10 / time.Duration(len(cfgs))
 	var total xstate.Stats
